@@ -589,7 +589,8 @@ def run(chk):
                        "signed generalized permutation, low-rank} x orders 2-4 (dims 2-4, thorough 2-5, x8 repetitions) x {svd, random, entrywise non-negative user init with zero columns / "
                        "non-unit weights} x caps {0,1,2,3,6} for non_negative_parafac, non_negative_parafac_hals (nn_modes all/None/subsets, sparsity, exact, fixed modes), non_negative_tucker, "
                        "non_negative_tucker_hals (fista / active_set, sparsity, fixed modes), constrained_parafac(non_negative = True / mode dict, inner caps 1/3/10), parafac2 (tensor or ragged "
-                       "slices, nn_modes incl. 'all', line search on/off, caps 0-11) + dedicated line-search runs + direct solver calls; predicate: every entry of a declared mode, weights, core >= 0; "
+                       "slices, nn_modes incl. 'all', line search on/off, caps 0-11) + dedicated line-search runs + non_negative_tucker(_hals) with init='svd' on standard-normal data at caps 0/1/5 "
+                       "+ parafac2(nn_modes=[0,2], default line search) on signed / sparse slices at odd caps 7/9/11 (140 / 600 runs) + direct solver calls; predicate: every entry of a declared mode, weights, core >= 0; "
                        "a case is non-trivial always (no all-size-1 / all-zero tensors are generated); distinct key = (entry point, shape, class, init, cap, nn_modes, options). "
                        "part B: dyadic few-bit inputs, model evaluated inside Coq over Q, tolerance atol + 1e-9 (|a|+|b|)")
     chk.assumptions = ["exact-arithmetic semantics: floating-point rounding is not modelled (bounded empirically by the toleranced comparison); IEEE inf / NaN are outside the model",
@@ -952,7 +953,7 @@ def corr_tucker_full(rng, tier):
     from tensorly.decomposition import non_negative_tucker
     out, skipped = [], 0
     eps = 10e-12
-    nrun = 10 if tier == "quick" else 60
+    nrun = 10 if tier == "quick" else 36
     for k in range(nrun):
         order = rng.choice([2, 2, 2, 3])
         shape = tuple(rng.randint(2, 3) for _ in range(order)) if order == 2 else (2, 2, 2)
@@ -1018,7 +1019,7 @@ def corr_hals_cp(rng, tier):
     its own stopping rule, up to 100 sweeps), executed by the model at the fixed-point carrier"""
     from tensorly.decomposition import non_negative_parafac_hals
     out = []
-    nrun = 8 if tier == "quick" else 70
+    nrun = 8 if tier == "quick" else 40
     for k in range(nrun):
         order = rng.choice([2, 3, 3])
         big = tier != "quick"
@@ -1057,7 +1058,7 @@ def corr_tucker_hals(rng, tier):
     model's own UtM / UtU with the inner stopping rule, FISTA core step with the recorded step size (SVD oracle), normalisation"""
     from tensorly.decomposition import non_negative_tucker_hals
     out = []
-    nrun = 6 if tier == "quick" else 60
+    nrun = 6 if tier == "quick" else 36
     for k in range(nrun):
         order = rng.choice([2, 3, 3])
         shape = tuple(rng.randint(2, 4 if tier != "quick" else 3) for _ in range(order))
@@ -1150,7 +1151,7 @@ def corr_tucker_aset(rng, tier):
     """complete runs of non_negative_tucker_hals(algorithm='active_set'), 0 or 1 outer sweeps, from a user initialisation"""
     from tensorly.decomposition import non_negative_tucker_hals
     out = []
-    nrun = 10 if tier == "quick" else 60
+    nrun = 10 if tier == "quick" else 36
     for k in range(nrun):
         order = rng.choice([2, 3, 3])
         shape = tuple(rng.randint(2, 4 if tier != "quick" else 3) for _ in range(order))
@@ -1243,7 +1244,7 @@ def run_correspondence(chk, rng):
     groups += corr_tucker_aset(rng, chk.tier)
     groups += corr_line(rng, chk.tier, chk)
     # interleave the groups so that every shard gets a mix of cheap and expensive cases
-    nsh = max(1, -(-len(groups) // (9 if chk.tier == "quick" else 25)))
+    nsh = max(1, -(-len(groups) // (9 if chk.tier == "quick" else 15)))
     groups = [g for k in range(nsh) for g in groups[k::nsh]]
     cases, meta = [], []
     for op, atol, w, Fs, m in groups:
@@ -1255,7 +1256,7 @@ def run_correspondence(chk, rng):
     for i in (0, len(cases) // 2, len(cases) - 1):
         if 0 <= i < len(cases):
             chk.sample({"correspondence": meta[i]["corr"], "inputs": C.jsonable({k: v for k, v in meta[i].items() if k != "corr"})})
-    shard = 9 if chk.tier == "quick" else 25
+    shard = 9 if chk.tier == "quick" else 15
     failing, n_eval, broken = C.run_case_shards("C10", HEADER, "case", cases, shard=shard, timeout=400)
     chk.checker_cmds.append("coqc (vm_compute) on generated build/cases/C10/*.v: Corr.C10.failing")
     # a shard that ran out of time / memory (shared machine) is re-run case by case; a single case that still exceeds its budget
